@@ -308,6 +308,35 @@ def bounded(ctx, b):
                     return False, {"spans": spans, "second_merge_changed": again["en"]}
                 return True, None
             b.guard(("merge", spans), one, sample={"spans": spans}, nontrivial=n > 0)
+    # histories: a set that has been merged (or adjusted) before is a set like any other - merged, then edited in place
+    # (a caption appended, a caption re-timed onto its neighbour), then merged again
+    def ref_merge(desc):
+        out = []
+        for sp, idx in runs_of([(s_, e_) for s_, e_, _ in desc]):
+            nodes = []
+            for k, i in enumerate(idx):
+                nodes += ([BRK_] if k else []) + list(desc[i][2])
+            out.append((sp[0], sp[1], nodes))
+        return out
+    for spans in itertools.product(spans_alphabet[:3], repeat=3):
+        for edit in ("append_concurrent", "retime_last", "append_then_adjust"):
+            def hist(spans=spans, edit=edit):
+                cs = CaptionSet({"en": CaptionList([Caption(s_, e_, build(shape(i))) for i, (s_, e_) in enumerate(spans)]),
+                                 "fr": CaptionList([Caption(1, 2, [T("x")]), Caption(1, 2, [T("y")])])})
+                cs = merge_concurrent_captions(cs)
+                cs = merge_concurrent_captions(cs)
+                lst = cs.get_captions("en")
+                if edit == "retime_last" and len(lst) > 1:
+                    lst[-1].start, lst[-1].end = lst[-2].start, lst[-2].end
+                else:
+                    lst.append(Caption(lst[-1].start, lst[-1].end, [T("added")]))
+                if edit == "append_then_adjust":
+                    cs.adjust_caption_timing(offset=7, rate_skew=1.0)
+                desc = dump(cs)["en"]
+                got = dump(merge_concurrent_captions(cs))["en"]
+                exp = ref_merge(desc)
+                return got == exp, {"spans": spans, "edit": edit, "before_the_last_merge": desc, "got": got, "expected": exp}
+            b.guard(("history", spans, edit), hist, sample={"spans": spans, "edit_after_two_merges": edit})
     # timing adjustment
     starts = [0, 1000, 5000, 2500, 100000]
     skews = [0.5, 1.0, 1.1, 4.0]
